@@ -16,7 +16,7 @@ CHECKS = {
          "DESIGN.md §2.3, §5 C20"),
  "C17": ("model_checking",
          "stateless exploration of thread schedules of the real cycle thread (statement hook of DebugControl) against a controller thread running every command script of a bounded alphabet, under a controlled scheduler with iterated deviation bound; each complete schedule is judged against the undebugged reference run and the stop/resume invariants",
-         "For every script (all sequences up to length 2 quick / 3 thorough over 14 debugger commands plus curated breakpoint-wait-step scripts) all interleavings at Mutex/Condvar granularity up to the deviation bound: final state equals the undebugged run, stop notifications = stops of the cycle thread (each with a location), every resume issued at a stop unblocks the thread, the cycle always terminates once breakpoints are cleared and Continue is issued, step-over/out never stop deeper, step-in stops at a direct successor statement (globally or within its task).",
+         "For every script (all sequences up to length 2 quick / 3 thorough over 22 debugger commands incl. steps addressed to a task, plus curated stop-wait-step, stop-wait-continue-wait-step and stop-wait-continue-step scripts, on two program variants) all interleavings at Mutex/Condvar granularity up to the deviation bound: final state equals the undebugged run, stop notifications = stops of the cycle thread (each with a location), every resume issued at a stop unblocks the thread, the cycle always terminates once breakpoints are cleared and Continue is issued, step-over/out never stop deeper, step-in stops at a direct successor statement (globally or within its task).",
          "Sequentially consistent interleavings, no spurious wake-ups, one fixed program shape (nested functions, FOR loop, FB, task + background program), two cycles; scripts contain no writes.",
          "DESIGN.md §2.3, §5 C17"),
  "C07": ("exploration",
@@ -30,7 +30,7 @@ CHECKS = {
          "The product of memoisation patterns is restricted to named prefix-closed families (see evidence stages); texts without VAR_GLOBAL/CONFIGURATION; 5 files not covered.",
          "DESIGN.md §5 C13"),
  "C01": ("exploration",
-         "bounded-exhaustive enumeration of generated ST programs (families F1-F9 of the ST-core corpus: operator matrices over boundary values of every integer type and reals, conversion matrix, control-flow shapes, calls incl. recursion, FB instances, precedence triples, aggregate indexing, hand-written feature probes), each compiled and run in crash-isolated worker processes; oracle = outcome class of every cycle",
+         "bounded-exhaustive enumeration of generated ST programs (families F1-F19 of the ST-core corpus (F11 input traces, F12 expression trees, F13 standard functions and non-core types, F14 programs that cannot terminate under an execution budget, F15 evaluation order, F16 object orientation / aggregates / remaining language forms, F17 chains of named types, F18-F19 scoping and late additions): operator matrices over boundary values of every integer type and reals, conversion matrix, control-flow shapes, calls incl. recursion, FB instances, precedence triples, aggregate indexing, hand-written feature probes), each compiled and run in crash-isolated worker processes; oracle = outcome class of every cycle",
          "Every accepted program of the enumerated families, every cycle: the cycle ends Ok or with a value-dependent fault (never a static-class error), no panic, no process abort, no hang, no call frame left behind.",
          "Small scope: everything in the families, nothing beyond; the list of value-dependent fault classes is taken from the property statement.",
          "DESIGN.md §5 shared corpus, C01"),
@@ -42,7 +42,7 @@ CHECKS = {
  "C03": ("exploration",
          "invariant checked on the storage dump after every cycle of every program of the ST-core corpus: the runtime tag of each scalar location (variables, array elements, struct fields, FB members) equals its declared type and integers are in range",
          "All write paths exercised by the corpus: assignment from variables/literals/expressions of every accepted source type into every declared type, index and field targets, parameters, FOR control variables, FB members.",
-         "Declared types come from the generator (not from the runtime). Debugger writes, I/O latching and restart paths are exercised by the engines of C17, C07 and C09, which do not check tags.",
+         "Declared types come from the generator (not from the runtime). Debugger writes (stcore/dbgwrite.rs) and I/O latching (stcore/iolatch.rs, incl. CHAR/WCHAR and hierarchical addresses) are separate families of this engine; restart paths are exercised by C09, which compares values with their rendered tags.",
          "DESIGN.md §5 C03"),
  "C04": ("model_checking",
          "explicit-state breadth-first search over call histories of TON, TOF, TP, CTU, CTD, CTUD, R_TRIG, F_TRIG, SR, RS at two seams (the pure Rust step structs and ST programs with two instances per kind run through TestHarness); state = all instance variables incl. hidden ones + reference-model state; oracle = the clauses of the IEC timing diagrams as arithmetic on accumulated time",
@@ -56,7 +56,7 @@ CHECKS = {
          "DESIGN.md §5 C08"),
  "C09": ("model_checking",
          "explicit-state breadth-first search (x2::bfs, states merged on a hash of the name-keyed dump + time + fault latch + images + reference-model state) over histories of {cycle, %I writes, restart(Warm), restart(Cold), power cycle through a real FileRetainStore, fault} on generated programs that declare every qualifier x scope x type; oracle = retain model + differential comparison of every cold-restarted state with a freshly built runtime on all 2-cycle continuations + relational binding checks",
-         "All histories to depth 4 (quick) / 8 (thorough) on five program families (149-variable matrix, bindings, config-init, single, memory).",
+         "All histories to depth 4 (quick) / 7 (thorough) on nine program families (149-variable matrix, bindings, config-init, single, memory incl. retained variables located in %M, store-explicit, store-every-cycle, store-reals, store-reals-every-cycle) over {cycle, %I writes, warm, cold, power cycle, explicit save, reboot without save, three cycle-less write paths}.",
          "Ambiguous cases (FB members under RETAIN, PROGRAM RETAIN, VAR_CONFIG init after warm) accept either reading but require the same reading for warm restart and power cycle.",
          "DESIGN.md §5 C09"),
  "C10": ("fault_enumeration",
@@ -81,7 +81,7 @@ CHECKS = {
          "DESIGN.md §2.3, §5 C19"),
  "C05": ("exploration",
          "(a) exhaustive exploration of iteration orders: every order-exposing traversal of a hash collection in the bytecode encoder (hooked through verif_map) is a choice point, all alternative orders explored depth-first to a deviation bound, emitted container compared byte for byte; (b) differential sweep: every corpus program compiled and run for 3 cycles in N independent OS processes x 2 threads (own hash seeds, layout, environment size), container bytes / per-cycle state / faults / runtime events compared",
-         "Corpus of ~930 compiling programs (generated wide programs with k types, interfaces, functions, FBs with methods, programs, tasks; every repository .st file; one case of every ST-core feature): the container never depends on an explored iteration order and all observations are identical across processes and threads.",
+         "Corpus of ~5 750 compiling programs (generated wide programs with k types, interfaces, functions, FBs with methods, programs, tasks; every repository .st file; one case of every ST-core feature): the container never depends on an explored iteration order and all observations are identical across processes and threads.",
          "The hash-seed space and memory layouts cannot be enumerated: (b) is a fixed-size sweep, not an enumeration, and is labelled so in the evidence; (a) is exhaustive only over the hooked encoder collections (currently 0 order-exposing traversals are reached, i.e. the order family holds trivially today).",
          "DESIGN.md §5 C05, §6"),
  "C06": ("model_checking",
@@ -97,7 +97,7 @@ CHECKS = {
  "C16": ("exploration",
          "bounded-exhaustive enumeration of generated projects (every subset of up to 1 / 2 of 19 declaration slots named x, single- and two-file layouts, uniform and mixed-case spelling) x every identifier token as rename position x a menu of new names (fresh, colliding in outer/inner/sibling/same scope, case variants, built-ins, keywords, invalid), each executed on the real trust_ide::rename, re-analysed with the HIR and executed with TestHarness",
          "Every accepted rename: edits in bounds, disjoint, each exactly one identifier token spelt like the old name; diagnostics equal up to the name; the renamed project compiles and its state after each of 3 cycles equals the original's modulo the renaming; every occurrence resolves to the same (edit-adjusted) declaration; renaming back restores the text byte for byte.",
-         "One input trace, 3 cycles; goto-definition-only differences not confirmed by diagnostics or execution are counted, not reported; dotted names, enums, EXTENDS, properties and actions are not generated.",
+         "One input trace, 3 cycles; goto-definition-only differences not confirmed by diagnostics or execution are counted, not reported; an inheritance skeleton (EXTENDS incl. namespace-qualified bases, OVERRIDE, THIS/SUPER) is generated as its own stratum; enums, properties and actions are not generated.",
          "DESIGN.md §5 C16"),
  "C15": ("exploration",
          "bounded-exhaustive enumeration of texts (every ordered pair of 68 representative tokens in 6 line contexts; every repository .st file and each of its single-line deletions/duplications; all sequences of <= 2 / 3 segments mixing code, comments, pragmas and tricky strings x separators x line endings; crafted programs) x formatter configurations (pairwise covering array of 8 option dimensions quick, full product thorough) x every line interval for rangeFormatting and every line end x trigger character for onTypeFormatting, through the REAL trust-lsp binary over stdio and WebIdeState::format_source; oracle via trust_syntax::lex on both sides",
